@@ -17,8 +17,8 @@ pub fn meta() -> Meta {
 (count/length past the end, undecodable name) => Packet::parse must be Err. W succeeds and parse is Ok => questions and records must \
 correspond one-to-one and in order to W's entries minus the lifted OPT (owner, type, class, cache-flush, TTL), and when the RDLENGTH-delimited \
 slice decodes exactly under the type's reference schema the library's fields must equal that decode. Inputs: reference messages with one \
-record's RDLENGTH stretched by filler that looks like a complete record (or shrunk), for all 40 types; all cut/perturb cases of the C01 corpus; \
-havoc. non-trivial = input >= 12 bytes announcing >= 1 entry on which W and the library were both run; distinct = hash of bytes",
+record's RDLENGTH stretched by filler that looks like a complete record (or shrunk), for all 40 types; an OPT record at every position of additional sections of 1..7 \
+distinguishable records; header counts overstated over minimal entries; all cut/perturb cases of the C01 corpus; havoc. non-trivial = input >= 12 bytes announcing >= 1 entry on which W and the library were both run; distinct = hash of bytes",
         assumptions: &[
             "W accepts in-bounds forward pointers, the library may reject them (no demand)",
             "with two or more TYPE-41 records in the additional section only the alignment of non-OPT entries is compared",
@@ -228,6 +228,41 @@ pub fn run(ctx: &mut Ctx) {
         ctx.sample("stretch", || json!({"bytes": hex(&b)}));
         ctx.add(&format!("stretch_cases_{}", type_name(TYPED_CODES[(idx % 40) as usize])), 1);
         check_bytes(ctx, "stretch", idx, &b);
+    }
+    // an OPT record at every position of an additional section of 1..7 distinguishable records: lifting it out must not
+    // disturb the order of the others
+    if ctx.family_active("opt-position") {
+        let reps = if ctx.slow_tool { 1 } else { tier.pick(12u64, 300u64) };
+        let mut idx = 0u64;
+        for n in 1..=7usize {
+            for pos in 0..n {
+                for rep in 0..reps {
+                    idx += 1;
+                    if !ctx.take("opt-position", idx) {
+                        continue;
+                    }
+                    let mut r = ctx.rng("opt-position", idx);
+                    let mut g = Gen::new(&mut r, Cfg { edns: 0, max_rest: 10, exotic: false, ..Default::default() });
+                    let mut m = MsgM { id: idx as u16, flags: 0x8400, ..Default::default() };
+                    if rep % 2 == 1 {
+                        m.secs[0].push(g.record().to_wire());
+                    }
+                    for k in 0..n {
+                        if k == pos {
+                            let opts = if rep % 3 == 0 { vec![] } else { vec![(10u16, vec![1, 2, 3, 4, 5, 6, 7, 8]), (3, vec![])] };
+                            m.secs[2].push(RRM::new(vec![], 41, 1232, 0, Rd::Fields(vec![F::Pairs(opts)])));
+                        } else {
+                            let mut rr = g.record().to_wire();
+                            rr.ttl = 1000 + k as u32; // distinguishable whatever the generator produced
+                            m.secs[2].push(rr);
+                        }
+                    }
+                    let b = encode(&m, if rep % 4 < 2 { Plan::None } else { Plan::Canonical }).bytes;
+                    ctx.add("opt_position_cases", 1);
+                    check_bytes(ctx, "opt-position", idx, &b);
+                }
+            }
+        }
     }
     // overstated counts over minimal entries: the header announces more entries than the bytes hold
     if ctx.family_active("overcount") {
